@@ -73,13 +73,21 @@ def nonempty_child_sequence(rule_name):
     return cand
 
 
+_EARLIER = (emlkit.ValidationError.UNKNOWN_NODE, "entry left by an earlier validation", emlkit.Node("verifEarlier"))
+
+
 def observe(rule_name, element, kids, content):
     res = []
     for mode in ("failfast", "collecting"):
         n = emlkit.make_node(rule_name, element, kids, content=content)
         errs = None if mode == "failfast" else []
+        prefilled = mode == "collecting" and len(str(content)) % 2 == 1
+        if prefilled:
+            errs.append(_EARLIER)  # a list that already holds an entry from an earlier validation
         try:
             emlkit.validate_as(rule_name, n, errs)
+            if prefilled:
+                errs = errs[1:] if errs and errs[0] is _EARLIER else ["earlier-entry-lost"]
             if mode == "failfast" or not errs:
                 res.append(C.ACCEPT)
             elif not emlkit.errs_wellformed(errs):
